@@ -35,7 +35,7 @@ VARIANTS = {
     "div.rpq": "div", "divin": "div", "divmod": "divmod", "divmodin": "divmodin", "mod.rpq": "mod", "modin": "modin",
     "pdivmod": "pdivmod", "pmod": "pmod", "isDivisor": "isDivisor",
     "gcd.2": "gcd", "gcd.5": "gcdext", "invmod": "invmod", "invmodunit": "invmodunit", "lcm": "lcm",
-    "pow": "pow", "powmod": "powmod", "powmod.u64": "powmod",
+    "pow": "pow", "powmod": "powmod", "powmod.u64": "powmod", "powmod.i64": "powmod", "powmod.u32": "powmod",
     "axpy": "axpy", "axpy.s": "axpy_s", "axpyin": "axpyin", "axpyin.s": "axpy_s",
     "maxpy": "maxpy", "maxpy.s": "maxpy_s", "maxpyin": "maxpyin", "maxpyin.s": "maxpyin_s",
     "axmy": "axmy", "axmy.s": "axmy_s", "axmyin": "axmyin", "axmyin.s": "axmyin_s",
@@ -607,7 +607,8 @@ def gen_case(rng, variant, op, sig, p, thr, big):
                 B[-1] = 1 if len(B) < 8 else B[-1] or 1
                 if len(B) < 2:
                     B = [1, 1]
-            return (variant, op, p, [A, e if variant == "powmod" else e % (1 << 63), B])
+            lim = {"powmod": None, "powmod.u64": 1 << 64, "powmod.i64": 1 << 63, "powmod.u32": 1 << 32}[variant]
+            return (variant, op, p, [A, e if lim is None else e % lim, B])
         return (variant, op, p, [A, B])
     for ch in sig:
         if ch == "P":
@@ -709,6 +710,47 @@ def exhaustive_cases(fk, p, maxdeg, variants):
                 if op in ("gcdext",) and not A and not B:
                     continue
                 cases.append((v, op, fk, p, [A, B]))
+    return cases
+
+
+# exponents across the word boundaries of every integer type an exponent may travel through
+def boundary_exponents(rng):
+    sparse = (1 << 128) + (1 << 64) + 1
+    dense = rng.bits(150) | (1 << 149) | 1
+    return [2 ** 31 - 1, 2 ** 31, 2 ** 32 - 1, 2 ** 32, 2 ** 32 + 1, 2 ** 63 - 1, 2 ** 63, 2 ** 63 + 1, 2 ** 64 - 1, 2 ** 64,
+            2 ** 64 + 5, 101 ** 12 - 1, 2 ** 127, sparse, dense, (1 << 192) - 1]
+
+
+def exponent_cases(rng, tier):
+    """powmod / pow with exponents at 2^31, 2^32, 2^63, 2^64, multi-limb sparse and dense; moduli of degree <= 9 so that
+    the ~130..200 squarings stay cheap for the extracted model"""
+    cases = []
+    fields = [("mi32", 2), ("mi32", 3), ("mi32", 7), ("mi32", 65521), ("mi64", 2147483647), ("md", 5), ("md", 67108859),
+              ("mb32", 7), ("mb32", 32749), ("gfq", 7), ("gfq", 251), ("mI", 3)]
+    reps = 1 if tier == "quick" else 6
+    for _ in range(reps):
+        for fk, p in fields:
+            for e in boundary_exponents(rng):
+                U = rand_poly(rng, p, rng.range(2, 10), rng.choice([0, 0, 1, 3]))
+                A = rand_poly(rng, p, rng.range(1, 10), 0)
+                if p > 2 and len(U) == 2 and rng.chance(1, 2):
+                    U = rand_poly(rng, p, 3, 0)
+                cases.append(("powmod", "powmod", fk, p, [A, e, U]))
+                if e < 1 << 64 and rng.chance(1, 2):
+                    cases.append(("powmod.u64", "powmod", fk, p, [A, e, U]))
+                if e < 1 << 63 and rng.chance(1, 2):
+                    cases.append(("powmod.i64", "powmod", fk, p, [A, e, U]))
+                if e < 1 << 32 and rng.chance(1, 2):
+                    cases.append(("powmod.u32", "powmod", fk, p, [A, e, U]))
+        # multi-word coefficients: a few exponents, tiny modulus polynomial
+        for e in [2 ** 63 - 1, 2 ** 63, 2 ** 64 + 5, 101 ** 12 - 1]:
+            cases.append(("powmod", "powmod", "mI", P100, [rand_poly(rng, P100, 3, 0), e, rand_poly(rng, P100, 3, 0)]))
+        # pow(W,P,uint64_t): constants only (the result of a non-constant P has degree e*deg P)
+        for fk, p in fields:
+            for e in [2 ** 31, 2 ** 32, 2 ** 32 + 1, 2 ** 63 - 1, 2 ** 63, 2 ** 64 - 1]:
+                c0 = rng.choice([p - 1, 1 + rng.below(p - 1), 2 % p or 1])
+                cases.append(("pow", "pow", fk, p, [[c0], e]))
+            cases.append(("pow", "pow", fk, p, [[], 2 ** 63]))
     return cases
 
 
@@ -1038,6 +1080,7 @@ def main(tier, replay=None):
         per = 24 if tier == "quick" else 150
         run_stream(chk, "thr2", bins, "t2", drv, gen_cases(rng, tier, 2, False, per, FIELDS_SMALLTHR, have), 2, 2, stats)
         run_stream(chk, "real", bins, "real", drv, gen_cases(rng, tier, kth, True, per, FIELDS_REAL, have), kth, sth, stats)
+        run_stream(chk, "exponent-boundaries", bins, "t2", drv, exponent_cases(rng, tier), 2, 2, stats)
         run_stream(chk, "unnormalised-operands", bins, "t2", drv, unnormalised_cases(rng, 6 if tier == "quick" else 60, FIELDS_SMALLTHR), 2, 2, stats)
         exv = ["mul.rpq", "karamul", "sqr", "divmod", "modin", "gcd.2", "gcd.5", "sub.rpq", "add.rpq", "lcm", "invmod", "pdivmod", "pmod"]
         if tier == "quick":
@@ -1056,7 +1099,8 @@ def main(tier, replay=None):
     chk.cov["rule"] = ("every call form (variant) x coefficient domain {Modular<int32_t> p=2,3,7,65521; Modular<int64_t> p=2^31-1; Modular<double> p=5,2^26-5; "
                        "Modular<Integer> p=3,2^100+277; ModularBalanced<int32_t> p=7,32749; GFqDom<int32_t>(p,1) p=7,251} x shapes {dense, sparse, monomial, "
                        "all-ones, zero low half, zero constant term} x sizes {0,1,2,.., thr-1..thr+2, 2thr.., 48..53, 63..65, 99..105, 127..129, ~200, ~300}, "
-                       "equal degree, degree difference around powers of two, divisor of degree 0, common factor, exact multiple; operands with leading "
+                       "equal degree, degree difference around powers of two, divisor of degree 0, common factor, exact multiple; powmod/pow exponents at 2^31, 2^32, 2^63, 2^64, "
+                       "101^12-1, multi-limb sparse/dense (modulus degree <= 9) through the Integer/uint64_t/int64_t/uint32_t overloads; operands with leading "
                        "zeros; exhaustive small pairs over GF(2), GF(3); non-trivial = operands have together >= 2 non-zero-stripped coefficients; "
                        "distinct = (variant,field,p,operands)")
     chk.cov["traces_validated_against_impl"] = stats["corr"]
